@@ -77,6 +77,7 @@ type succ struct {
 	Viol string `json:"viol,omitempty"`
 	Herr string `json:"herr,omitempty"`
 	Term bool   `json:"term,omitempty"` // terminal: judged, but not explored further
+	Shape string `json:"shape,omitempty"` // coarse structural class of the successor state (evidence: non-vacuity)
 }
 
 // TaskResult is what a generic (non-BFS) task returns.
@@ -142,6 +143,7 @@ func expandState(sp Space, path []Op, wantInit bool, noTrace bool) workResp {
 		s := succ{Op: op}
 		s.Key, err = stepAndCheck(sp, w, op, noTrace, parentTxt)
 		s.Term = w.FormerOnly != nil
+		s.Shape = w.lastShape
 		if err != nil {
 			if v, ok := err.(*Violation); ok {
 				s.Viol = v.Msg
@@ -292,6 +294,7 @@ type Stats struct {
 	Outcomes    map[string]int // distinct observed outcome classes
 	Samples     []string
 	Deepest     []Op
+	Shapes      map[string]int // states per coarse structural class
 	Wall        float64
 }
 
@@ -307,6 +310,12 @@ func (s *Stats) Add(o Stats) {
 		if s.CapHit == "" {
 			s.CapHit = o.CapHit
 		}
+	}
+	for k, v := range o.Shapes {
+		if s.Shapes == nil {
+			s.Shapes = map[string]int{}
+		}
+		s.Shapes[k] += v
 	}
 	for _, x := range o.Samples {
 		if len(s.Samples) < 12 {
@@ -428,6 +437,10 @@ func Explore(pool *Pool, spec Spec, deadline time.Time, maxViol int) (Stats, []F
 					// not know about (e.g. something a changed library captures in a closure)
 					seen[s.Key] = true
 					st.States++
+					if st.Shapes == nil {
+						st.Shapes = map[string]int{}
+					}
+					st.Shapes[s.Shape]++
 					if s.Term {
 						continue
 					}
@@ -477,6 +490,7 @@ func stepAndCheck(sp Space, w *World, op Op, noTrace bool, parentTxt string) (st
 	}
 	txt, _ := w.StateText()
 	key := HashText(txt)
+	w.lastShape = shapeOf(txt)
 	if noTrace && strings.HasPrefix(w.LastRet, "err:") && w.TraceText() != parentTxt {
 		txt = w.TraceText()
 		return key, violf("rejected request %s (%s) left a trace: state before\n%s\nstate after\n%s", op, w.LastRet, parentTxt, txt)
@@ -527,4 +541,43 @@ func (p *Pool) RunTasks(name string, args []any) ([]TaskResult, error) {
 		}
 	}
 	return results, nil
+}
+
+// shapeOf classifies a canonical state text coarsely: tree levels of the deepest root, and which
+// structural features occur (inlined children, standalone children / large values, external and
+// inline collision groups, slabs decoded from the ledger or served from the cache, leaked slabs).
+func shapeOf(txt string) string {
+	maxDepth := 0
+	var stack []bool // for every open brace: is it an index slab?
+	metas := 0
+	for i := 0; i < len(txt); i++ {
+		switch txt[i] {
+		case '{':
+			isMeta := i+3 <= len(txt) && (txt[i+1:i+3] == "am" || txt[i+1:i+3] == "mm")
+			stack = append(stack, isMeta)
+			if isMeta {
+				metas++
+				if metas > maxDepth {
+					maxDepth = metas
+				}
+			}
+		case '}':
+			if n := len(stack); n > 0 {
+				if stack[n-1] {
+					metas--
+				}
+				stack = stack[:n-1]
+			}
+		case '\n':
+			stack, metas = stack[:0], 0
+		}
+	}
+	var f []string
+	f = append(f, fmt.Sprintf("levels=%d", maxDepth+1))
+	for _, kv := range [][2]string{{"I{", "inlined-child"}, {"@#", "reference"}, {"{st ", "large-value-slab"}, {" X(", "external-group"}, {" G(", "inline-group"}, {"list", "digestless-list"}, {"S(", "wrapper"}, {"unreached", "leak"}} {
+		if strings.Contains(txt, kv[0]) {
+			f = append(f, kv[1])
+		}
+	}
+	return strings.Join(f, "+")
 }
